@@ -17,6 +17,34 @@ def mentions(e, macro):
     return facts.any_in_macro(e, macro)
 
 
+def _grown_local(f, r, store):
+    """r is a local with the single definition `max_users + K` (K > 0), and every other store to max_users in f is a
+    `max_users++` under the test `max_users < r`"""
+    defs = [n2["R"] for b2, i2, n2 in f.nodes() if n2.get("k") == "Asg" and strip(n2["L"]).get("k") == "Ref" and strip(n2["L"]).get("id") == r.get("id")]
+    defs += [v["init"] for b2, i2, n2 in f.nodes() if n2.get("k") == "Decl" for v in n2.get("vars", ()) if v.get("id") == r.get("id") and isinstance(v.get("init"), dict)]
+    if len(defs) != 1:
+        return False
+    d = strip(defs[0])
+    if not (d.get("k") == "Bin" and d.get("op") == "+" and any(strip(a).get("n") == "max_users" and (const_val(b_) or 0) > 0 for a, b_ in ((d["L"], d["R"]), (d["R"], d["L"])))):
+        return False
+    for b2, i2, n2 in f.nodes():
+        if n2 is store:
+            continue
+        tgt = None
+        if n2.get("k") == "Asg":
+            tgt = strip(n2["L"])
+        elif n2.get("k") == "Un" and n2.get("op") in ("++", "--"):
+            tgt = strip(n2["e"])
+        if tgt is None or tgt.get("k") != "Ref" or tgt.get("n") != "max_users":
+            continue
+        if not (n2.get("k") == "Un" and n2.get("op") == "++"):
+            return False
+        g = [atom_of(c, t) for c, t, B in cfgq.guards(f, b2.id)]
+        if not any(op == "<" and strip(l).get("n") == "max_users" and strip(rr).get("id") == r.get("id") for op, l, rr in g):
+            return False
+    return True
+
+
 def check(run, prog, tier):
     run.rule("C12-a", "backend(): grant loop `for (i = 0; i < max_users; i++) if (all_users[i]) iflags |= HAS_CMD_TURN` dominates the command loop inside the main loop", 2)
     run.rule("C12-b", "get_user_command(): consume + select are guarded by (complete command) and (turn held); the no-turn branch neither consumes input nor the turn; the scan is bounded by max_users", 3)
@@ -371,6 +399,8 @@ def check(run, prog, tier):
                     verdict, why = True, "`%s`: grows by a positive constant" % show(n)[:50]
                 elif const_val(r) is not None and any(op_ in ("false",) and strip(l_).get("n") == "all_users" for op_, l_, r_ in [atom_of(c, t) for c, t, B in cfgq.guards(f0, b.id)]):
                     verdict, why = True, "`%s` while the table does not exist yet (max_users is 0 there)" % show(n)[:40]
+                elif r.get("k") == "Ref" and r.get("d") == "local" and _grown_local(f0, r, n):
+                    verdict, why = True, "`%s`: %s is max_users plus a positive constant, and max_users only counts up to it in between" % (show(n)[:50], r.get("n"))
                 else:
                     g = [atom_of(c, t) for c, t, B in cfgq.guards(f0, b.id)]
                     grows = any(op in (">", ">=") and show(strip(l)) == show(r) and strip(rr).get("n") == "max_users" for op, l, rr in g) or any(op in ("<", "<=") and strip(l).get("n") == "max_users" and show(strip(rr)) == show(r) for op, l, rr in g)
